@@ -51,7 +51,7 @@ MUTANTS = [
     ('operator_dict.py', "keys_out, func = self[mv1.keys(), mv2.keys()]", "keys_out, func = self[mv2.keys(), mv1.keys()]", 'dispatch', 'the cache key is (mv1.keys(), mv2.keys())'),
     ('operator_dict.py', "mv2 = mv2 if isinstance(mv2, MultiVector) else MultiVector.fromkeysvalues(self.algebra, (0,), [mv2])",
      "mv2 = mv2 if isinstance(mv2, MultiVector) else MultiVector.fromkeysvalues(self.algebra, (1,), [mv2])", 'dispatch', 'a number as operand 2'),
-    ('operator_dict.py', "if not (mv1.algebra is mv2.algebra or mv1.algebra == mv2.algebra):", "if False:", 'dispatch', 'C14: operands whose algebras differ'),
+    ('operator_dict.py', "if not (mv1.algebra is mv2.algebra or mv1.algebra == mv2.algebra):", "if False:", 'dispatch', 'operands whose algebras differ'),
     ('multivector.py', "return self._values[idx] if swaps % 2 == 0 else - self._values[idx]", "return self._values[idx]", 'access', 'getattr: (-1)^parity'),
     ('multivector.py', "for k in self.algebra.indices_for_grades[grades] if k in self.keys()}", "for k in self.algebra.indices_for_grades[grades]}", 'access', 'grade: a candidate blade is kept'),
     ('multivector.py', "        return self.algebra.sub(other, self)", "        return self.algebra.sub(self, other)", 'delegation', '__rsub__'),
